@@ -38,6 +38,9 @@ def _task(t):
     else:
         ops, fam = hcheck.generate(seed, prop)
     r = hcheck.check_history(ops, tolerate=_tolerate)
+    if r.get("undefined"):
+        # the generator must never emit an operation with undefined behaviour (only shrinking may create one)
+        r["violations"] = [("ENGINE", "generator-emitted-undefined-op", "seed %s: %s" % (seed, r["undefined"]), 0)]
     r["seed"] = seed
     r["families"] = fam
     r["ops"] = ops if r["violations"] else None
